@@ -150,9 +150,10 @@ closeLoop:
 }
 
 func (s *atpServerSession) runATPReadLoop() {
-	// The message is generic, so we must find the type and decode the full message next.
-	var runtimeMessage DecodedRuntimeMessage
 	for {
+		// The message is generic, so we must find the type and decode the full message next.
+		// A fresh message per iteration: the decoder leaves fields that are absent from the input untouched.
+		var runtimeMessage DecodedRuntimeMessage
 		// First, decode the message
 		// Note: This blocks. To abort early, close stdin.
 		if err := s.cborStdin.Decode(&runtimeMessage); err != nil {
